@@ -760,6 +760,12 @@ func runCheck(args []string) int {
 			return 2
 		}
 	}
+	if len(blind) > 0 && total.BudgetHit {
+		// the wall-clock cap cut the batch short (slow or loaded machine): what was explored
+		// held; the reach probes are only demanded of a complete batch
+		fmt.Printf("NOTE: wall-clock budget hit after %d of %d runs; reach probes still at zero: %s\n", total.Runs, N, strings.Join(blind, ", "))
+		blind = nil
+	}
 	if len(blind) > 0 && *runsFlag == 0 {
 		fmt.Printf("MACHINERY-BLIND: reach probes at zero: %s\n", strings.Join(blind, ", "))
 		if exit == 0 {
